@@ -957,6 +957,11 @@ func (hm *HandshakeManager) continueHandshake(via ViaSender, hh *HandshakeHostIn
 	}
 
 	duration := time.Since(hh.startTime).Nanoseconds()
+	// packetStore is appended to under the manager lock (StartHandshake's cacheCb) until Complete removes hh
+	hm.RLock()
+	cachedPackets := len(hh.packetStore)
+	hm.RUnlock()
+
 	msg := "Handshake message received"
 	if !anyVpnAddrsInCommon {
 		msg = "Handshake message received, but no vpnNetworks in common."
@@ -972,7 +977,7 @@ func (hm *HandshakeManager) continueHandshake(via ViaSender, hh *HandshakeHostIn
 		"responderIndex", result.RemoteIndex,
 		"handshake", m{"stage": uint64(machine.MessageIndex()), "style": header.SubTypeName(header.Handshake, machine.Subtype())},
 		"durationNs", duration,
-		"sentCachedPackets", len(hh.packetStore),
+		"sentCachedPackets", cachedPackets,
 	)
 
 	hostinfo.vpnAddrs = vpnAddrs
